@@ -41,7 +41,7 @@ def make_config(seed, tier="quick"):
         stim_kinds=r.sample(STIM_KINDS, r.randint(1, len(STIM_KINDS))),
         early=r.random() < 0.5,  # try sends in pre-logon / disconnected states as well
         p_pause=r.choice([0.0, 0.0, 0.3, 0.6]),
-        p_hook=0.0,
+        p_hook=r.choice([0.0, 0.0, 0.3]),  # only on_state_change: the auto-Logon task may be parked inside its send
         chunk_law=r.choice(["whole", "whole", "mixed", "small"]),
         p_act=r.choice([0.5, 0.9]),
         p_more=r.choice([0.0, 0.4]),
@@ -81,6 +81,9 @@ class OutboundSim(PeerSim):
                 fr = refframer.build("D", [("11", f"OLD-{n}"), ("55", "ES")], sender, target, n, "20231114-00:00:00.000")
                 j.persist_msg(fr, sess, MessageDirection.OUTBOUND)
         self.logon_pending = self.eut_role == "acceptor"
+
+    def hook_p(self, label, hname):
+        return self.cfg["p_hook"] if hname == "on_state_change" else 0.0
 
     def peer_event(self, kind):
         if kind == "connected" and self.eut_role == "acceptor":
